@@ -89,6 +89,7 @@ def _startup(run, s, tier):
             pred[at] = {tuple(j["sched"]): sorted(j["failed"]) for j in res["json"]}
         scheds = sorted(pred["FALSE"])
         outcomes = {}
+        mismatch = None
         for k, sch in enumerate(scheds):
             dd = os.path.join(s, "c14_start_%d_%d" % (P, k))
             os.makedirs(dd)
@@ -112,13 +113,33 @@ def _startup(run, s, tier):
                     pending[e["rank"]] = None
             if sorted(r for r, k in steps if k == "isdir") != list(range(P)) or any(k not in ("isdir", "mkdir", "makedirs") for _, k in steps) \
                     or [r for r, _ in steps] != list(sch)[:len(steps)]:
-                raise RuntimeError("start-up replay: executed steps %s are not the behaviour %s of FS.tla" % (steps, sch))
+                mismatch = (steps, sch)          # the constructor no longer has the step structure FS.tla models: explore it dynamically below
+                shutil.rmtree(dd, ignore_errors=True)
+                break
             if failed:
                 t = coord.tail(res["out"][failed[0]], 4)
                 run.violation("startup_race:P%d:%s" % (P, "".join(map(str, sch))),
                               "constructing the likelihood on %d ranks from a fresh directory, file-system steps in rank order %s: rank(s) %s failed and the others block in the next collective (%s)\n%s" % (
                                   P, list(sch), failed, res["status"], t), {"P": P, "schedule": list(sch)})
             shutil.rmtree(dd, ignore_errors=True)
+        if mismatch is not None:
+            # fall-back that does not depend on the model's step structure: depth-first exploration of the real processes' file-system interleavings
+            cnt = [0]
+
+            def make_args(k):
+                d2 = os.path.join(s, "c14_dyn_%d_%d" % (P, k))
+                os.makedirs(d2)
+                data.gauss_file(os.path.join(d2, "d.txt"), lambda x: 2 * x + 1, n=8)
+                cnt[0] += 1
+                return ("gauss", "d.txt", "r", d2, "core_maths")
+            runs = coord.explore(P, "harness.targets:construct_like", make_args, s, max_runs=40 if tier == "quick" else 200)
+            for trace, res in runs:
+                failed = sorted(r_ for r_, c in res["exit"].items() if c not in (0, 86))
+                if failed:
+                    run.violation("startup_race:dynamic:P%d" % P, "constructing the likelihood on %d ranks from a fresh directory: with the ranks scheduled in the order %s rank(s) %s failed (%s)\n%s" % (
+                        P, trace, failed, res["status"], coord.tail(res["out"][failed[0]], 4)), {"P": P, "grants": trace})
+            run.add("startup_P%d_dynamic" % P, evaluations=len(runs), nontrivial=len(runs), traces=len(runs), model_mismatch=str(mismatch)[:300])
+            continue
         agree = {at: sum(1 for sch in scheds if outcomes[sch] == pred[at].get(sch, [])) for at in pred}
         run.add("startup_P%d" % P, evaluations=len(scheds), nontrivial=len(scheds), traces=len(scheds),
                 schedules=len(scheds), outcomes_as_check_then_act_model=agree["FALSE"], outcomes_as_atomic_model=agree["TRUE"])
